@@ -81,6 +81,18 @@ async def _read_all(stream: bytes, cuts, lazy, max_calls, stats=None):
                     payload = hexs(f.message)
                 except Exception as e:  # noqa: BLE001 -- reading the delivered payload must not raise
                     payload = "!" + type(e).__name__
+                # the application then looks at the decoded content: the frame must go on carrying the bytes it was read from
+                try:
+                    f.data  # noqa: B018
+                except Exception:  # noqa: BLE001 -- an undecodable payload is C05's / C09's business
+                    pass
+                try:
+                    again = hexs(f.message)
+                    if again != payload or (not payload.startswith("!") and bytes(f.bytes)[8:-2] != bytes(f.message)):
+                        payload = f"{payload}->{again}"
+                except Exception as e:  # noqa: BLE001
+                    if not payload.startswith("!"):
+                        payload = f"{payload}->!{type(e).__name__}"
                 out.append(("D", int(f.frame_type), int(f.recipient), int(f.sender), int(f.econet_type),
                             int(f.econet_version), payload, n,
                             type(f).__name__))
